@@ -89,6 +89,9 @@ func init() {
 		return
 	}
 	verifServe()
+	if verifDir != "" {
+		os.RemoveAll(verifDir)
+	}
 	os.Exit(0)
 }
 
@@ -204,21 +207,31 @@ func verifHandle(req *verifReq) (resp verifResp) {
 
 type verifExit struct{ code int }
 
+var verifDir string
+
 func verifMain(req *verifReq) (resp verifResp) {
-	dir, err := os.MkdirTemp("", "pigeon-verif-")
-	if err != nil {
-		resp.Err, resp.ErrKind = err.Error(), "harness"
-		return resp
-	}
-	defer os.RemoveAll(dir)
-	mk := func(name string, content []byte) *os.File {
-		p := dir + "/" + name
-		if err := os.WriteFile(p, content, 0o600); err != nil {
-			panic(err)
+	if verifDir == "" {
+		d, err := os.MkdirTemp("", "pigeon-verif-")
+		if err != nil {
+			resp.Err, resp.ErrKind = err.Error(), "harness"
+			return resp
 		}
-		f, err := os.OpenFile(p, os.O_RDWR, 0)
+		verifDir = d
+	}
+	dir := verifDir
+	os.Remove(dir + "/out.go")
+	mk := func(name string, content []byte) *os.File {
+		f, err := os.OpenFile(dir+"/"+name, os.O_RDWR|os.O_CREATE|os.O_TRUNC, 0o600)
 		if err != nil {
 			panic(err)
+		}
+		if len(content) > 0 {
+			if _, err := f.Write(content); err != nil {
+				panic(err)
+			}
+			if _, err := f.Seek(0, 0); err != nil {
+				panic(err)
+			}
 		}
 		return f
 	}
